@@ -102,7 +102,21 @@ def _family(rng, emission=None, small=False, aux=None):
     C = np.round(rng.normal(size=(K, 2)) * 1.2, 3)
     if aux is None:
         aux = bool(rng.random() < 0.4)
-    return {"K": K, "M": M, "emission": emission, "A": A, "B": B, "mu": mu, "sig": sig, "Q": Q, "C": C, "aux": bool(aux)}
+    # nested: the step's choices live under one address of an outer @gen function ({"s": {"x", "y"}}), so that a
+    # custom proposal's choices and the observations share a hierarchical prefix and must be merged recursively
+    nested = bool(rng.random() < 0.35)
+    return {"K": K, "M": M, "emission": emission, "A": A, "B": B, "mu": mu, "sig": sig, "Q": Q, "C": C, "aux": bool(aux),
+            "nested": nested}
+
+
+def _ch(fam, choices):
+    return choices["s"] if fam.get("nested") else choices
+
+
+def _selx(fam):
+    from genjax import sel
+
+    return sel(("s", "x")) if fam.get("nested") else sel("x")
 
 
 def _lsm(v):
@@ -169,7 +183,7 @@ def _build(fam):
     emission = fam["emission"]
 
     @gen
-    def model(prev):
+    def flat_model(prev):
         x = px(A[prev]) @ "x"
         if aux:
             pz(C[x]) @ "z"
@@ -179,18 +193,44 @@ def _build(fam):
             normal(mu[x], sig) @ "y"
         return x
 
+    nested = fam.get("nested", False)
+    if nested:
+
+        @gen
+        def model(prev):
+            return flat_model(prev) @ "s"
+
+    else:
+        model = flat_model
+
     def ybin(y):
         if emission == "cat":
             return y
         return (y > 0.0).astype(jnp.int32) % M
 
-    @gen
-    def init_proposal(cons, prev):
-        return pq(Q[prev, ybin(cons["y"])]) @ "x"
+    if nested:
 
-    @gen
-    def ext_proposal(cons, old_choices, prev):
-        return pq(Q[prev, ybin(cons["y"])]) @ "x"
+        @gen
+        def q_inner(yv, prev):
+            return pq(Q[prev, ybin(yv)]) @ "x"
+
+        @gen
+        def init_proposal(cons, prev):
+            return q_inner(cons["s"]["y"], prev) @ "s"
+
+        @gen
+        def ext_proposal(cons, old_choices, prev):
+            return q_inner(cons["s"]["y"], prev) @ "s"
+
+    else:
+
+        @gen
+        def init_proposal(cons, prev):
+            return pq(Q[prev, ybin(cons["y"])]) @ "x"
+
+        @gen
+        def ext_proposal(cons, old_choices, prev):
+            return pq(Q[prev, ybin(cons["y"])]) @ "x"
 
     return model, init_proposal, ext_proposal
 
@@ -204,7 +244,8 @@ def _obs(fam, rng, T):
 def _jobs(fam, y):
     import jax.numpy as jnp
 
-    return {"y": jnp.asarray(y, jnp.int32 if fam["emission"] == "cat" else jnp.float32)}
+    o = {"y": jnp.asarray(y, jnp.int32 if fam["emission"] == "cat" else jnp.float32)}
+    return {"s": o} if fam.get("nested") else o
 
 
 # ---------------------------------------------------------------------------
@@ -219,11 +260,11 @@ def _check_estimate(ctx, p, fam, d, op):
     lw = np.asarray(p.log_weights, dtype=np.float64)
     if not np.all(np.isfinite(lw)):
         return True
-    xs = np.asarray(p.traces.get_choices()["x"]).astype(np.int64)
+    xs = np.asarray(_ch(fam, p.traces.get_choices())["x"]).astype(np.int64)
     w = np.exp(lw - lw.max())
     w = w / w.sum()
     for kk in range(fam["K"]):
-        got = float(p.estimate(lambda c, _k=kk: (c["x"] == _k).astype(jnp.float32)))
+        got = float(p.estimate(lambda c, _k=kk: (_ch(fam, c)["x"] == _k).astype(jnp.float32)))
         want = float(np.sum(w * (xs == kk)))
         ctx.count("estimate_identities")
         if abs(got - want) > 1e-5:
@@ -260,7 +301,7 @@ def _run_pipeline(case, ctx):
     T = int(rng.integers(2, 5))
     use_prop = bool(rng.random() < 0.5)
     ys = _obs(fam, rng, T)
-    base = {"K": fam["K"], "M": fam["M"], "emission": fam["emission"], "N": N, "custom_proposal": use_prop, "aux_latent": fam["aux"], "C": fam["C"].tolist(), "observations": ys,
+    base = {"K": fam["K"], "M": fam["M"], "emission": fam["emission"], "N": N, "custom_proposal": use_prop, "aux_latent": fam["aux"], "nested_addresses": fam["nested"], "C": fam["C"].tolist(), "observations": ys,
             "A": fam["A"].tolist(), "B": fam["B"].tolist(), "mu": fam["mu"].tolist(), "sigma": fam["sig"], "Q": fam["Q"].tolist()}
     pipeline = []
     probes.HOST.reset("observe", int(rng.integers(2**31)))
@@ -311,7 +352,7 @@ def _run_pipeline(case, ctx):
                     if not _check_estimate(ctx, p, fam, d, "resample"):
                         return
                 else:
-                    p = jit_run(lambda pc: rejuvenate(pc, lambda tr: mh(tr, sel("x"))), before)
+                    p = jit_run(lambda pc: rejuvenate(pc, lambda tr: mh(tr, _selx(fam))), before)
                     pipeline.append("rejuvenate:mh")
                     if hasattr(p, "brief"):
                         ctx.violation(gfi.raise_key("rejuvenate", p), {**base, "pipeline": pipeline, **p.brief()})
@@ -324,7 +365,7 @@ def _run_pipeline(case, ctx):
                         ctx.violation("rejuvenate|weights-changed", {**d, "before": np.asarray(before.log_weights).tolist(), "after": np.asarray(p.log_weights).tolist()})
                         return
                     # observations untouched, traces coherent with their own arguments
-                    if not np.array_equal(np.asarray(p.traces.get_choices()["y"]), np.asarray(before.traces.get_choices()["y"])):
+                    if not np.array_equal(np.asarray(_ch(fam, p.traces.get_choices())["y"]), np.asarray(_ch(fam, before.traces.get_choices())["y"])):
                         ctx.violation("rejuvenate|observation-changed", d)
                         return
                     if not _check_estimate(ctx, p, fam, d, "rejuvenate"):
@@ -352,7 +393,7 @@ def _check_move(ctx, ref, fam, p, prev_ret, lw_prev, y, use_prop, acc_ref, event
     from lib import refmodel as R
 
     d = {**base, "pipeline": list(pipeline)}
-    ch = p.traces.get_choices()
+    ch = _ch(fam, p.traces.get_choices())
     xs = np.asarray(ch["x"]).astype(np.int64)
     ys_ = np.asarray(ch["y"])
     lw = np.asarray(p.log_weights, dtype=np.float64)
@@ -452,7 +493,7 @@ def _run_exact(case, ctx):
     ys = _obs(fam, rng, T)
     mode = "composed" if rng.random() < 0.6 else "rejuvenation_smc"
     resample_at = [bool(rng.random() < 0.5) for _ in range(T)]
-    base = {"K": fam["K"], "M": fam["M"], "emission": fam["emission"], "N": N, "T": T, "custom_proposal": use_prop, "aux_latent": fam["aux"], "observations": ys,
+    base = {"K": fam["K"], "M": fam["M"], "emission": fam["emission"], "N": N, "T": T, "custom_proposal": use_prop, "aux_latent": fam["aux"], "nested_addresses": fam["nested"], "observations": ys,
             "mode": mode, "resample_after_step": resample_at,
             "A": fam["A"].tolist(), "B": fam["B"].tolist(), "mu": fam["mu"].tolist(), "sigma": fam["sig"], "Q": fam["Q"].tolist()}
     alphas = ref.forward(ys)
@@ -460,7 +501,7 @@ def _run_exact(case, ctx):
 
     def stats(p):
         lml = p.log_marginal_likelihood()
-        est = p.estimate(lambda c: (c["x"] == kk).astype(jnp.float32))
+        est = p.estimate(lambda c: (_ch(fam, c)["x"] == kk).astype(jnp.float32))
         return lml, est
 
     # which time step's exact quantities each recorded (lml, estimate) pair is compared with
